@@ -452,6 +452,14 @@ def execute(st, ctx):
                 out.violate("C10.differs_from_functools" if i < len(rtrace) else "C10.differs_from_model_after_discard",
                             (opname, what) + sig[2:], describe(i))
                 break
+        else:
+            if sc.binding == 1:
+                # the same calls reach the function - with the instance each was made through
+                got = [inv[3] for inv in aside.invocations]
+                want = [inv[3] for inv in mside.invocations]
+                if got != want:
+                    out.violate("C10.method_invoked_with_another_instance", sig[2:],
+                                dict(describe(), invoked_with=got, expected=want))
     # probes
     hits = atrace[-1][1][0] if atrace else 0
     evicted = False
